@@ -125,6 +125,22 @@ def r2(ctx):
         ctx.obligation(ok)
         if not ok:
             ctx.violation("primitive/%s" % fn, ctx.where(AGG, a["body"]), "%s must be computed with %s (and not %s); its arm uses %s" % (fn, need, forbid, ns))
+    # every buffered row takes part: no iterator adaptor that ends the pass early or selects by position may stand between
+    # the buffer and the aggregate (filter_map / flatten over the parse result only drop rows without a value)
+    stops = ("map_while", "take_while", "skip_while", "take", "skip", "step_by", "nth", "find", "find_map", "position", "last", "scan",
+             "try_fold", "try_for_each", "peekable", "fuse", "zip", "rev_take", "next", "dedup", "chunks", "windows", "first", "split_first", "split_last")
+    for fn in (AGG, SUM, VARIANCE, MEAN):
+        hh = ctx.anchor_hir(fn)
+        for x in walk_exprs(hh):
+            if x["k"] == "MCall":
+                n += 1
+                bad = x["m"] in stops and ("iter" in str(x.get("callee", "")).lower() or "slice" in str(x.get("callee", "")).lower() or
+                                           "Vec" in str(x["recv"].get("ty", "")))
+                ctx.obligation(not bad)
+                if bad:
+                    ctx.violation("rows/adaptor/%s/%s" % (short(fn, 1), x["m"]), ctx.where(fn, x),
+                                  "`%s` in the pass over the buffered rows ends it early or selects rows by position: an aggregate is "
+                                  "a function of every buffered row that has a value" % x["m"])
     # variance family: divisor and sqrt
     for fn, (samp, sqrt) in {"StdDevPop": (False, True), "StdDevSamp": (True, True), "VarPop": (False, False), "VarSamp": (True, False)}.items():
         a = arms.get(fn)
@@ -293,6 +309,7 @@ RULES = [
     ("C07-R3", "the WHERE filter is applied before aggregation; one buffer row per accepted entry", r3),
     ("X-BUFFER", "buffering predicates (ordered or aggregate) and recursive expression predicates [shared]", lambda ctx: __import__("extra").buffering_predicates(ctx)),
     ("C06-R2", "no early stop while rows are buffered for aggregation [shared with C06]", lambda ctx: __import__("c06").r2(ctx)),
+    ("C07-R6", "MIN / MAX range over the rows that have a value (empty and absent cells take no part)", lambda ctx: r6(ctx)),
 ]
 
 EXPLANATION = (
@@ -306,3 +323,43 @@ EXPLANATION = (
 ASSUMPTIONS = ["rustc's HIR/MIR faithfully represent the source; exporter and rule scripts are correct",
                "Iterator::min/max, f64::sqrt/powi as documented"]
 NOT_DECIDED = ["exactness for sums beyond usize/i64, values that do not parse as integers", "empty-input conventions", "floating-point rounding"]
+
+
+def r6(ctx):
+    """MIN / MAX are taken over the buffered rows that have a value: rows whose cell is empty (an unreadable entry, a
+    directory's line_count) or absent neither end the pass nor count as 0.  The two arms of get_aggregate_value are
+    evaluated (finite interpreter) on every buffer of up to three rows over {"3", "7", empty cell, no cell}."""
+    import interp
+    import itertools
+    h = ctx.anchor_hir(AGG)
+    ps = ctx.prog.fns[AGG]["params"]
+    if len(ps) != 4:
+        ctx.violation("empty-cells/anchor", ctx.where(AGG), "get_aggregate_value no longer takes (function, buffer, key, default)")
+        return
+    cells = {"3": {"k": "3"}, "7": {"k": "7"}, "empty": {"k": ""}, "none": {"other": "1"}}
+    n = 0
+    for fn in ("Min", "Max"):
+        for ln in range(0, 4):
+            for combo in itertools.product(sorted(cells), repeat=ln):
+                buf = [interp.HMap(cells[c]) for c in combo]
+                vals = [int(c) for c in combo if c in ("3", "7")]
+                want = str((min(vals) if fn == "Min" else max(vals)) if vals else 0)
+                env = {ps[0]["id"]: interp.some(interp.V("Function::" + fn, [])), ps[1]["id"]: buf, ps[2]["id"]: "k", ps[3]["id"]: interp.NONE}
+                n += 1
+                try:
+                    got = interp.Interp(prog=ctx.prog, max_steps=20000).run(h, env)
+                except interp.Undecided as e:
+                    ctx.obligation(False)
+                    ctx.violation("empty-cells/%s/unreadable" % fn, ctx.where(AGG), "cannot evaluate %s over the buffer %s: %s" % (fn.upper(), list(combo), e))
+                    break
+                ok = got == want
+                ctx.obligation(ok)
+                if not ok:
+                    ctx.violation("empty-cells/%s" % fn, ctx.where(AGG),
+                                  "%s over the rows %s is `%s`, expected `%s`: rows without a value (empty cell of an unreadable entry or of a "
+                                  "directory) take no part in the aggregate and do not end the pass" % (fn.upper(), list(combo), got, want))
+                    break
+            else:
+                continue
+            break
+    ctx.covered("MIN / MAX evaluated on all buffers of <= 3 rows over {3, 7, empty cell, no cell}", n, distinct_keys=["Min", "Max"], exhaustive=True)
